@@ -18,6 +18,12 @@ mod possible_std;
 pub mod standard_library;
 mod text;
 
+/// Verification hooks, see `lint_filtering::verif` (only with `--cfg selene_verif`).
+#[cfg(selene_verif)]
+pub mod verif {
+    pub use crate::lint_filtering::{filter_diagnostics, verif::*};
+}
+
 #[cfg(test)]
 mod test_util;
 
